@@ -130,4 +130,22 @@ def earlyShutdownSites : List Site :=
 def earlyFlaggedSites : List Site :=
   [⟨"watchPeers", ["case:<-ticker.C", "!hasMe"], true, false⟩, ⟨"PeerRemove", ["pid == c.id"], true, false⟩]
 
+/-! Round 8c — the two things a history can still contain that put it outside the statement on the repaired code
+    (`consult = true`), as predicates of the HISTORY instead of the machine's `outside` marker. -/
+
+/-- `consensus.Peers` answers the `Shutdown` the operator starts (every event other than `stop` asks nothing) -/
+def DEv.answered : DEv → Bool
+  | .stop p _ => p
+  | _ => true
+
+def DEv.isRmo : DEv → Bool
+  | .removedByOther => true
+  | _ => false
+
+/-- somewhere in the history the peer is removed by another member WHILE IT IS DOWN (K17b: it cannot learn of it) -/
+def removedWhileDown (sites : List Site) (keep : Nat) (slash : Bool) : PSt → List DEv → Bool
+  | _, [] => false
+  | st, e :: rest =>
+    (e.isRmo && st.f.shutdown && st.member) || removedWhileDown sites keep slash (depStep sites keep slash st e) rest
+
 end CV.C17
